@@ -418,6 +418,8 @@ type SearchOpts struct {
 	GoalNode func(n ast.Node) bool
 	// GoalExit: whether reaching an exit of this kind is a goal.
 	GoalExit func(kind ExitKind, last ast.Node) bool
+	// GoalBlock: entering a block satisfying this is a goal.
+	GoalBlock func(b *cfg.Block) bool
 	// EdgeOK filters edges (from block, succ index k, to block); nil = all.
 	EdgeOK func(from *cfg.Block, k int, to *cfg.Block) bool
 }
@@ -426,9 +428,6 @@ type SearchOpts struct {
 // entry when from.B < 0) that reaches a goal without passing a Stop node.
 // It returns the path's nodes (abbreviated) and true when one exists.
 func (g *Graph) FindPath(from Loc, o SearchOpts) ([]ast.Node, bool) {
-	type state struct {
-		b, i int
-	}
 	startB, startI := from.B, from.I+1
 	if from.B < 0 {
 		startB, startI = 0, 0
@@ -474,6 +473,9 @@ func (g *Graph) FindPath(from Loc, o SearchOpts) ([]ast.Node, bool) {
 			}
 			if o.EdgeOK != nil && !o.EdgeOK(blk, k, s) {
 				continue
+			}
+			if o.GoalBlock != nil && o.GoalBlock(s) {
+				return true
 			}
 			if visited[si] {
 				continue
